@@ -428,6 +428,7 @@ class Repo:
             key.update(m.name.encode())
             key.update(repr(sorted((k, sorted(v)) for k, v in normalize.MUTATORS.items())).encode())
             key.update(repr(sorted(normalize.KNOWN_FUNCS)).encode())
+            key.update(repr(sorted((k_, sorted(v_)) for k_, v_ in normalize.IMPORT_ALIASES.items())).encode())
             for local in sorted(imported):
                 key.update(local.encode())
                 key.update(ast.dump(imported[local]).encode())
